@@ -134,3 +134,22 @@ Definition canon_uix (A : ta) (n : nat) : uix :=
   let X0 := {| u_idx := fun x => x; u_sidx := fun s => s; u_nsym := N.succ (max_sym A); u_eidx := fun _ => 0%N |} in
   {| u_idx := fun x => x; u_sidx := fun s => s; u_nsym := N.succ (max_sym A);
      u_eidx := fun e => pos_in env_eqb e (all_envs X0 A) (N.succ (N.of_nat n)) |}.
+
+(* ---- the historical TranslateUpward (before the fix of D3): the parent stored in an environment is already an LTS
+   state, and was translated through the state index a second time when the environment -> parent edge was added ---- *)
+Definition up_rule_edges_old (X : uix) (leaf : N) (p : rule) : lts :=
+  match ch p with
+  | [] => [(leaf, u_sidx X (sym p), u_idx X (par p))]
+  | [c] => [(u_idx X c, u_sidx X (sym p), u_idx X (par p))]
+  | _ => flat_map (fun ce => [(u_idx X (fst ce), u_nsym X, u_eidx X (snd ce));
+                              (u_eidx X (snd ce), e_sym (snd ce), u_idx X (e_par (snd ce)))]) (envs_of_rule X p)
+  end.
+Definition translate_up_old (X : uix) (n : nat) (A : ta) : lts := flat_map (up_rule_edges_old X (N.of_nat n)) (rules A).
+Definition up_lts_sim_old (X : uix) (n : nat) (A : ta) : list (N * N) :=
+  lts_sim_from (translate_up_old X n A) (up_node_init X n A).
+
+(* an index with a given state numbering and canonical symbol / environment numbering *)
+Definition mk_uix (f : N -> N) (A : ta) (n : nat) : uix :=
+  let X0 := {| u_idx := f; u_sidx := fun s => s; u_nsym := N.succ (max_sym A); u_eidx := fun _ => 0%N |} in
+  {| u_idx := f; u_sidx := fun s => s; u_nsym := N.succ (max_sym A);
+     u_eidx := fun e => pos_in env_eqb e (all_envs X0 A) (N.succ (N.of_nat n)) |}.
